@@ -180,9 +180,14 @@ struct Zygote {
 
 static Zygote g_zygote;
 
+// keys of known findings (known_findings.json, status "known"): a run goes on
+// past them; each is still gated, minimised and reported once per worker
+static std::set<std::string> g_tolerate;
+
 static ExecOpts opts_for(const std::string& prop) {
     ExecOpts o;
     o.focus = prop;
+    o.tolerate = g_tolerate;
     o.watch_isolation = prop == "C14";
     if (prop == "C14")
         o.solo = [](const Plan& p,
@@ -389,6 +394,8 @@ struct Minimiser {
                     continue;
                 e.meth = remap[e.meth];
             }
+            if (e.op == OP_OFFSETS && e.meth >= 0)
+                e.meth = e.meth < (int)remap.size() ? remap[e.meth] : -1;
             evs.push_back(e);
         }
         q.events = evs;
@@ -741,6 +748,8 @@ static void child_loop(
             (int)(fresh_sig && r.nontrivial), others);
         if (st == RS_INVALID)
             fprintf(out, "I %ld %s\n", i, r.invalid_why.c_str());
+        for (auto& v : r.tolerated)
+            fprintf(out, "W %ld %s\n", i, v.key().c_str());
         if (others) {
             for (auto& v : r.v)
                 if (v.prop != prop) {
@@ -806,6 +815,8 @@ static int cmd_run(
     Hash allhash;
     std::set<std::uint64_t> all_sigs;
     std::map<std::string, long> other_keys;
+    std::map<std::string, long> known_first, known_count;
+    std::set<std::string> known_reported;
     std::vector<std::string> samples;
     while (i < to && now_s() < deadline && failures < max_failures) {
         int fds[2];
@@ -901,6 +912,14 @@ static int cmd_run(
                 long idx;
                 if (sscanf(line, "O %ld %255s", &idx, k) == 2)
                     ++other_keys[k];
+            } else if (line[0] == 'W') {
+                char k[256];
+                long idx;
+                if (sscanf(line, "W %ld %255s", &idx, k) == 2) {
+                    ++known_count[k];
+                    if (!known_first.count(k))
+                        known_first[k] = idx;
+                }
             } else if (line[0] == 'P') {
                 if (samples.size() < 3) {
                     std::string s(line + 2);
@@ -919,6 +938,25 @@ static int cmd_run(
         waitpid(pid, &st, 0);
         total.add(child_stats);
         nontrivial += child_nontrivial;
+        // a known finding seen for the first time by this worker: the same
+        // run again, strict about that key, then gated and minimised as any
+        // other failure (the driver decides whether it is listed)
+        for (auto& kv : known_first) {
+            if (!known_reported.insert(kv.first).second)
+                continue;
+            auto saved = g_tolerate;
+            g_tolerate.erase(kv.first);
+            std::uint64_t seed = run_seed(base, prop, kv.second);
+            Plan plan = generate(prop, seed, tier);
+            Probe first = probe(plan, prop);
+            if (first.status == RS_VIOLATION && first.key == kv.first) {
+                J f = handle_failure(plan, prop, kv.second, first);
+                f.set("tolerated", true);
+                printf("V %s\n", f.str().c_str());
+                fflush(stdout);
+            }
+            g_tolerate = saved;
+        }
         long bad = -1;
         if (restart && failed_at < 0) {
             i = finished + 1;
@@ -975,6 +1013,10 @@ static int cmd_run(
     for (auto& kv : other_keys)
         ok.set(kv.first, J((long long)kv.second));
     sum.set("other_property_observations", ok);
+    J kk = J::obj();
+    for (auto& kv : known_count)
+        kk.set(kv.first, J((long long)kv.second));
+    sum.set("known_findings_seen", kk);
     sum.set("failures", failures);
     sum.set("next_index", J((long long)i));
     sum.set("loghash", J((unsigned long long)allhash.h));
@@ -1117,6 +1159,18 @@ int main(int argc, char** argv) {
         } else if (cmd == "run") {
             g_outdir = arg(argc, argv, "--out", "/verif/replays");
             g_sigfile = arg(argc, argv, "--sigfile", "");
+            {
+                std::string t = arg(argc, argv, "--tolerate", "");
+                std::size_t b = 0;
+                while (b < t.size()) {
+                    std::size_t e = t.find(',', b);
+                    if (e == std::string::npos)
+                        e = t.size();
+                    if (e > b)
+                        g_tolerate.insert(t.substr(b, e - b));
+                    b = e + 1;
+                }
+            }
             g_elines = flag(argc, argv, "--elines");
             long from = atol(arg(argc, argv, "--from", "0"));
             long to = atol(arg(argc, argv, "--to", "1000"));
